@@ -1,6 +1,7 @@
 package g4
 
 import (
+	"sort"
 	"fmt"
 	"os"
 	"regexp"
@@ -489,5 +490,51 @@ func ListenerDispatch(src, lang string) []Dispatch {
 			out[i].Exit = append(out[i].Exit, calls...)
 		}
 	}
+	return out
+}
+
+// Labels: the rule-element labels (`name=element`) a parser grammar declares, resp. the labelled children the
+// generated contexts of one language offer. Labels live in no automaton, table or vocabulary: a rename that is not
+// regenerated everywhere leaves trees whose labelled children differ between the packages.
+func GrammarLabels(src string) []string {
+	seen := map[string]bool{}
+	for _, m := range regexp.MustCompile(`\b([A-Za-z_][A-Za-z_0-9]*)\s*\+?=\s*[A-Za-z_('~]`).FindAllStringSubmatch(stripG4Comments(src), -1) {
+		if m[1] != "tokenVocab" && m[1] != "language" && m[1] != "superClass" && m[1] != "caseInsensitive" {
+			seen[m[1]] = true
+		}
+	}
+	return sortedKeys(seen)
+}
+
+func GeneratedLabels(src, lang string) []string {
+	var re *regexp.Regexp
+	switch lang {
+	case "go":
+		re = regexp.MustCompile(`(?m)^\s*// Get\w+ returns the (\w+) (?:rule contexts?|tokens?|rule context list|token list)\.`)
+	case "ts":
+		re = regexp.MustCompile(`(?m)^\s*public _(\w+)!?: [\w\[\]]+;`)
+	case "java":
+		re = regexp.MustCompile(`(?m)^\s*public (?:\w+Context|Token|List<\w+>) (\w+)(?: = new ArrayList<\w+>\(\))?;`)
+	default:
+		return nil
+	}
+	seen := map[string]bool{}
+	for _, m := range re.FindAllStringSubmatch(src, -1) {
+		seen[m[1]] = true
+	}
+	return sortedKeys(seen)
+}
+
+func stripG4Comments(src string) string {
+	src = regexp.MustCompile(`(?s)/\*.*?\*/`).ReplaceAllString(src, "")
+	return regexp.MustCompile(`(?m)//[^\n]*$`).ReplaceAllString(src, "")
+}
+
+func sortedKeys(m map[string]bool) []string {
+	var out []string
+	for k := range m {
+		out = append(out, k)
+	}
+	sort.Strings(out)
 	return out
 }
